@@ -214,7 +214,7 @@ pub(crate) fn convert(k: u32, shape: [L; 3], track: bool) {
             // the common divisor must be chosen for the largest of the three values (ask)
             unsafe {
                 assert!(FDD_CALLED && FDD_ARG[0] == ask_limbs[0] && FDD_ARG[1] == ask_limbs[1] && FDD_ARG[2] == ask_limbs[2],
-                    "C28: the divisor exponent was not derived from ask");
+                    "C28 [stub-observed]: the divisor exponent was not derived from ask");
             }
             assert!(sp && sb && sa, "C28: negative bid/price/ask accepted");
             assert!(b.le(p) && p.le(a), "C28: misordered bid/price/ask accepted");
